@@ -13,6 +13,7 @@ import PyGqlModel.Props.C06_ctx
 import PyGqlModel.Props.C06_spreads
 import PyGqlModel.Props.C06_vars
 import PyGqlModel.Props.C06_frags
+import PyGqlModel.Props.C06_cycles3
 namespace PyGql.Props.C06
 open PyGql PyGql.Validate PyGql.Validate.Spec
 
@@ -26,13 +27,18 @@ def ProvedOrder : List Rule := [.possibleFragmentSpreads]
 def ProvedVars : List Rule :=
   [.uniqueVariableNames, .noUndefinedVariables, .noUnusedVariables, .variablesInAllowedPosition]
 def ProvedPermDefs : List Rule := Proved ++ ProvedTyped
-def ProvedAll : List Rule := ProvedPermDefs ++ ProvedOrder ++ ProvedVars
+/-- proved for documents with unique, non-empty fragment names -/
+def ProvedCyc : List Rule := [.noFragmentCycles]
+def ProvedAll : List Rule := ProvedPermDefs ++ ProvedOrder ++ ProvedVars ++ ProvedCyc
 
 /-- the variants of the validator the uniform theorems speak about: the variable collector of /repo HEAD
     (fix commit 160f78c). `Fixes.all` satisfies it; the harness checks on every run that the tree under test does -/
-def HeadVars (fx : Fixes) : Prop := fx.v3 = true ∧ fx.v4 = true
+def HeadVars (fx : Fixes) : Prop := fx.v3 = true ∧ fx.v4 = true ∧ fx.v11 = true
 
-theorem headVars_all : HeadVars Fixes.all := ⟨rfl, rfl⟩
+theorem headVars_all : HeadVars Fixes.all := ⟨rfl, rfl, rfl⟩
+
+/-- what the parser guarantees and no rule checks: fragment names are not empty -/
+def NamesNonEmpty (d : Doc) : Prop := ∀ f ∈ Spec.fragNames d, f ≠ ""
 
 def SpecAll (r : Rule) (s : SchemaD) (fx : Fixes) (d : Doc) : Prop :=
   match r with
@@ -49,12 +55,14 @@ def SpecAll (r : Rule) (s : SchemaD) (fx : Fixes) (d : Doc) : Prop :=
   | .noUndefinedVariables => Spec.noUndefinedVariables d
   | .noUnusedVariables => Spec.noUnusedVariables d
   | .variablesInAllowedPosition => Spec.variablesInAllowedPosition s d
+  | .noFragmentCycles => Spec.noFragmentCycles d
   | r => SpecOf r s d
 
-theorem rule_iff_all (s : SchemaD) (fx : Fixes) (hfx : HeadVars fx) (d : Doc) (r : Rule) (hr : r ∈ ProvedAll) :
+theorem rule_iff_all (s : SchemaD) (fx : Fixes) (hfx : HeadVars fx) (d : Doc) (hne : NamesNonEmpty d)
+    (hnd : (Spec.fragNames d).Nodup) (r : Rule) (hr : r ∈ ProvedAll) :
     Silent s fx r d ↔ SpecAll r s fx d := by
   simp only [ProvedAll, ProvedPermDefs, List.mem_append] at hr
-  rcases hr with ((hr | hr) | hr) | hr
+  rcases hr with (((hr | hr) | hr) | hr) | hr
   · have := rule_iff s fx d r hr
     simp only [Proved, List.mem_cons, List.not_mem_nil, or_false] at hr
     rcases hr with rfl | rfl | rfl | rfl | rfl | rfl | rfl | rfl | rfl | rfl <;> exact this
@@ -74,9 +82,12 @@ theorem rule_iff_all (s : SchemaD) (fx : Fixes) (hfx : HeadVars fx) (d : Doc) (r
   · simp only [ProvedVars, List.mem_cons, List.not_mem_nil, or_false] at hr
     rcases hr with rfl | rfl | rfl | rfl
     · exact rule_unique_variable_names_iff s fx d
-    · exact rule_no_undefined_variables_iff s fx hfx.2 d
-    · exact rule_no_unused_variables_iff s fx hfx.2 d
-    · exact rule_variables_in_allowed_position_iff s fx hfx.1 hfx.2 d
+    · exact rule_no_undefined_variables_iff s fx hfx.2.1 d
+    · exact rule_no_unused_variables_iff s fx hfx.2.1 d
+    · exact rule_variables_in_allowed_position_iff s fx hfx.1 hfx.2.1 d
+  · simp only [ProvedCyc, List.mem_cons, List.not_mem_nil, or_false] at hr
+    subst hr
+    exact rule_no_fragment_cycles_iff s fx hfx.2.2 d hnd hne
 
 /-- the rules of `ProvedPermDefs` need no hypothesis on `fx` -/
 theorem rule_iff_permdefs (s : SchemaD) (fx : Fixes) (d : Doc) (r : Rule) (hr : r ∈ ProvedPermDefs) :
@@ -97,22 +108,30 @@ theorem rule_iff_permdefs (s : SchemaD) (fx : Fixes) (d : Doc) (r : Rule) (hr : 
     · exact rule_known_directives_iff s fx d
     · exact rule_no_unused_fragments_iff_implemented s fx d
 
-/-- **verdict_iff** for the conjunction of the 23 rules proved -/
-theorem verdict_iff_all_partial (s : SchemaD) (fx : Fixes) (hfx : HeadVars fx) (d : Doc) :
-    (∀ r ∈ ProvedAll, Silent s fx r d) ↔ (∀ r ∈ ProvedAll, SpecAll r s fx d) :=
-  forall_congr' fun r => forall_congr' fun hr => rule_iff_all s fx hfx d r hr
+/-- **verdict_iff** for the conjunction of the 24 rules proved -/
+theorem verdict_iff_all_partial (s : SchemaD) (fx : Fixes) (hfx : HeadVars fx) (d : Doc) (hne : NamesNonEmpty d) :
+    (∀ r ∈ ProvedAll, Silent s fx r d) ↔ (∀ r ∈ ProvedAll, SpecAll r s fx d) := by
+  have huf : Rule.uniqueFragmentNames ∈ ProvedAll := by decide
+  constructor
+  · intro h
+    have hnd : (Spec.fragNames d).Nodup := (rule_unique_fragment_names_iff s fx d).mp (h _ huf)
+    exact fun r hr => (rule_iff_all s fx hfx d hne hnd r hr).mp (h r hr)
+  · intro h
+    have hnd : (Spec.fragNames d).Nodup := h _ huf
+    exact fun r hr => (rule_iff_all s fx hfx d hne hnd r hr).mpr (h r hr)
 
-/-- **attribution** over the 23 rules proved (on the rules run alone; see `attribution_partial`) -/
-theorem attribution_all_partial (s : SchemaD) (fx : Fixes) (hfx : HeadVars fx) (d : Doc) (r : Rule) (hr : r ∈ ProvedAll)
+/-- **attribution** over the 24 rules proved (on the rules run alone; see `attribution_partial`) -/
+theorem attribution_all_partial (s : SchemaD) (fx : Fixes) (hfx : HeadVars fx) (d : Doc) (hne : NamesNonEmpty d)
+    (hnd : (Spec.fragNames d).Nodup) (r : Rule) (hr : r ∈ ProvedAll)
     (hbad : ¬ SpecAll r s fx d) (hothers : ∀ r' ∈ ProvedAll, r' ≠ r → SpecAll r' s fx d) :
     0 < E (alone s fx r d) ∧ ∀ r' ∈ ProvedAll, r' ≠ r → E (alone s fx r' d) = 0 := by
-  refine ⟨Nat.pos_of_ne_zero fun h0 => hbad ((rule_iff_all s fx hfx d r hr).mp h0), fun r' hr' hne => ?_⟩
-  exact (rule_iff_all s fx hfx d r' hr').mpr (hothers r' hr' hne)
+  refine ⟨Nat.pos_of_ne_zero fun h0 => hbad ((rule_iff_all s fx hfx d hne hnd r hr).mp h0), fun r' hr' hdiff => ?_⟩
+  exact (rule_iff_all s fx hfx d hne hnd r' hr').mpr (hothers r' hr' hdiff)
 
 theorem typedNodes_perm (s : SchemaD) {d d' : Doc} (h : d.defs.Perm d'.defs) (p : Node × View) :
     p ∈ typedNodes s d ↔ p ∈ typedNodes s d' := (h.flatMap_right _).mem_iff
 
-/-- **perm_definitions** for 17 of the 23 rules proved (`PossibleFragmentSpreads` reads the type condition of the LAST
+/-- **perm_definitions** for 17 of the 24 rules proved (`PossibleFragmentSpreads` reads the type condition of the LAST
     definition of a fragment name, so with duplicate fragment names its predicate depends on the order) -/
 theorem perm_definitions_all_partial (s : SchemaD) (fx : Fixes) {d d' : Doc} (h : d.defs.Perm d'.defs) (r : Rule)
     (hr : r ∈ ProvedPermDefs) : Silent s fx r d ↔ Silent s fx r d' := by
